@@ -39,7 +39,16 @@ func Parse(patchFileName string, src []byte) (*File, error) {
 }
 
 // Apply takes the Go file name and its contents and returns a Go file with the patch applied.
-func (f *File) Apply(filename string, src []byte) ([]byte, error) {
+func (f *File) Apply(filename string, src []byte) (_ []byte, retErr error) {
+	// An ill-typed patch (say, an expression metavariable where only a name
+	// can go) makes the reflection-based engine or the printer panic.
+	// Report that as an error instead of crashing the caller.
+	defer func() {
+		if p := recover(); p != nil {
+			retErr = fmt.Errorf("could not update %q: internal error: %v", filename, p)
+		}
+	}()
+
 	base, err := parser.ParseFile(f.fset, filename, src, parser.AllErrors|parser.ParseComments)
 	if err != nil {
 		return nil, fmt.Errorf("could not parse %q: %w", filename, err)
@@ -48,7 +57,6 @@ func (f *File) Apply(filename string, src []byte) ([]byte, error) {
 	snap := astdiff.Before(base, ast.NewCommentMap(f.fset, base, base.Comments))
 
 	var fout *ast.File
-	var retErr error
 	for _, c := range f.prog.Changes {
 		d, ok := c.Match(base)
 		if !ok {
